@@ -102,7 +102,7 @@ def canon(x, nans):
     if x is None:
         return None
     tn = type(x).__name__
-    if isinstance(x, bool) or tn == 'bool_':
+    if isinstance(x, bool) or tn in ('bool_', 'bool'):
         return ['b', bool(x)]
     if isinstance(x, float) or tn.startswith('float'):
         if x != x:
@@ -185,12 +185,14 @@ def ext_universe():
 
 LANES = 6
 COQ_PRELUDE = 'Definition U : list val := [' + ';\n '.join(coq_val(v) for v in UNIVERSE) + '].\n' + \
-    ''.join('Definition run_dsort_b%d := run_dsort.\nDefinition run_sort_b%d := run_sort.\n' % (i, i) for i in range(LANES))
+    ''.join('Definition run_dsort_b%d := run_dsort.\nDefinition run_sort_b%d := run_sort.\n' % (i, i) for i in range(LANES)) + \
+    'Definition run_cmpmut (c : list val * list val) : J := JL [run_cmp3 (fst c); JL (map JV (sort (fst c))); run_cmp3 (snd c); JL (map JV (sort (snd c)))].\n' + \
+    'Definition run_dsort2 (c : (table * sortspec) * (table * sortspec)) : J := JL [JT (dsort_spec (snd (fst c)) (fst (fst c))); JT (dsort_spec (snd (snd c)) (fst (snd c)))].\n'
 
 def coq_runner(case):
     if 'lane' in case:                  # large inputs go to their own cases files so that they are evaluated in parallel
         return 'run_%s_b%d' % ('sort' if case['kind'] == 'sortbig' else 'dsort', case['lane'] % LANES)
-    return {'cmp_row': 'run_cmp_row', 'cmp_laws': 'run_cmp_row', 'cmp_laws_ext': 'run_cmp_row', 'sortbig': 'run_sort', 'cmp3': 'run_cmp3', 'sort': 'run_sort', 'dsort': 'run_dsort'}[case['kind']]
+    return {'cmp_row': 'run_cmp_row', 'cmp_laws': 'run_cmp_row', 'cmp_laws_ext': 'run_cmp_row', 'sortbig': 'run_sort', 'cmpmut': 'run_cmpmut', 'dsortmut': 'run_dsort2', 'cmp3': 'run_cmp3', 'sort': 'run_sort', 'dsort': 'run_dsort'}[case['kind']]
 
 def coq_table(cols):
     return '[' + '; '.join('(%s, [%s])' % (coq_name(c), '; '.join(coq_val(x) for x in cells)) for c, cells in cols) + ']'
@@ -212,6 +214,11 @@ def coq_case(case):
     if k == 'cmp3': return '[' + '; '.join(coq_val(v) for v in case['vals']) + ']'
     if k in ('sort', 'sortbig'): return '[' + '; '.join(coq_val(v) for v in case['xs']) + ']'
     if k == 'dsort': return '(%s, %s)' % (coq_table(case['cols']), coq_spec(case['spec']))
+    if k == 'cmpmut':
+        after = list(case['vals']); after[case['target']] = mutate_json(case['vals'][case['target']], case['path'], case['op'])
+        return '([%s], [%s])' % ('; '.join(coq_val(v) for v in case['vals']), '; '.join(coq_val(v) for v in after))
+    if k == 'dsortmut':
+        return '((%s, %s), (%s, %s))' % (coq_table(case['cols']), coq_spec(case['spec']), coq_table(dsortmut_after(case)), coq_spec(case['spec']))
     raise ValueError(k)
 
 # ------------------------------------------------------------------ implementation side + oracle
@@ -327,7 +334,90 @@ def impl(case):
         return {'status': st1, 'obs': obs, 'viol': viol}
     if k == 'dsort':
         return impl_dsort(case, nans)
+    if k == 'cmpmut':
+        return impl_cmpmut(case, nans)
+    if k == 'dsortmut':
+        return impl_dsortmut(case, nans)
     raise ValueError(k)
+
+# ---- in-place mutation between two calls (cmp / sort must depend on the CURRENT contents only)
+def mutate_json(v, path, op):
+    """the JSON value after the mutation: path = indices into items / elements, op = ['set', k, x] | ['append', x] | ['setitem', i, x]"""
+    kind, a = v
+    a = [list(e) if kind == 'm' else e for e in a]
+    if path:
+        i = path[0]
+        if kind == 'm': a[i][1] = mutate_json(a[i][1], path[1:], op)
+        else: a[i] = mutate_json(a[i], path[1:], op)
+        return [kind, a]
+    if op[0] == 'set':
+        for e in a:
+            if e[0] == op[1]:
+                e[1] = op[2]; break
+        else:
+            a.append([op[1], op[2]])
+    elif op[0] == 'append': a.append(op[1])
+    else: a[op[1]] = op[2]
+    return [kind, a]
+
+def mutate_obj(o, path, op, nans):
+    for i in path:
+        o = list(o.values())[i] if isinstance(o, dict) else o[i]
+    if op[0] == 'set': o[op[1] if isinstance(op[1], str) else build(op[1], nans)] = build(op[2], nans)
+    elif op[0] == 'append': o.append(build(op[1], nans))
+    else: o[op[1]] = build(op[2], nans)
+
+def dsortmut_after(case):
+    cols = [[c, list(cells)] for c, cells in case['cols']]
+    for c, cells in cols:
+        if c == case['col']:
+            cells[case['row']] = mutate_json(cells[case['row']], case['path'], case['op'])
+    return cols
+
+def impl_cmpmut(case, nans):
+    vals = [build(v, nans) for v in case['vals']]
+    def snap():
+        M = [[safe_cmp(x, y) for y in vals] for x in vals]
+        st, r = call(lambda: sorted(list(vals), key=Cmp))      # the cmp order (sort() itself may take python's native order, e.g. True == 1.0)
+        return M, ([canon(x, nans) for x in r] if st == 'ok' else ['ERR', st])
+    M1, S1 = snap(); M1b, S1b = snap()
+    mutate_obj(vals[case['target']], case['path'], case['op'], nans)
+    M2, S2 = snap(); M2b, S2b = snap()
+    viol = None
+    if (M1b, S1b) != (M1, S1) or (M2b, S2b) != (M2, S2):
+        viol = 'cmp / sorted(key=Cmp) called twice on the same objects gave different results: %r then %r' % ((M1, M2), (M1b, M2b))
+    if viol is None:
+        viol = laws_on_matrix(vals, M1, lambda i: 'value %d before the update' % i) or laws_on_matrix(vals, M2, lambda i: repr(vals[i]))
+    if viol is None:
+        after = list(case['vals']); after[case['target']] = mutate_json(case['vals'][case['target']], case['path'], case['op'])
+        fresh = [build(v, nans) for v in after]                # equal contents, new objects
+        F = [[safe_cmp(x, y) for y in fresh] for x in fresh]
+        X = [safe_cmp(x, y) for x, y in zip(vals, fresh)]
+        if F != M2 or any(c != 0 for c in X):
+            viol = 'after an in-place update of %r, cmp on the updated objects gives %r but on freshly built equal objects %r; cmp(updated, fresh equal) = %r' % (vals[case['target']], M2, F, X)
+        elif isinstance(S2, list) and S2 and S2[0] != 'ERR':
+            st, r = call(lambda: sorted(list(fresh), key=Cmp))
+            if st != 'ok' or [canon(x, nans) for x in r] != S2:
+                viol = 'sort after an in-place update differs from sort of freshly built equal objects'
+    return {'status': 'ok', 'obs': [M1, S1, M2, S2], 'viol': viol}
+
+def impl_dsortmut(case, nans):
+    t = make_table(case['cols'], nans)
+    args, kw = spec_args(case['spec'], nans)
+    st1, r1 = call(lambda: t.sort(*args, **kw))
+    o1 = canon_table(r1, nans) if st1 == 'ok' else ['ERR', st1]            # observed BEFORE the update (the result shares the cell objects)
+    mutate_obj(t[case['col']][case['row']], case['path'], case['op'], nans)
+    st2, r2 = call(lambda: t.sort(*args, **kw))
+    o2 = canon_table(r2, nans) if st2 == 'ok' else ['ERR', st2]
+    viol = None
+    if st1 != 'ok' or st2 != 'ok':
+        viol = 'dictable.sort raised %s / %s' % (st1, st2)
+    else:
+        fresh = make_table(dsortmut_after(case), nans)
+        st3, r3 = call(lambda: fresh.sort(*args, **kw))
+        if st3 != 'ok' or canon_table(r3, nans) != o2:
+            viol = 'after an in-place update of cell %s[%d], dictable.sort gives %s but on a freshly built equal table %s' % (case['col'], case['row'], o2, canon_table(r3, nans) if st3 == 'ok' else st3)
+    return {'status': 'ok', 'obs': [o1, o2], 'viol': viol}
 
 def make_table(cols, nans):
     # as a dict, not as keyword arguments: columns may be called like the constructor's own parameters ('data', 'columns')
@@ -393,7 +483,7 @@ def impl_dsort(case, nans):
 
 def nontrivial(case, result):
     k = case['kind']
-    if k in ('cmp_row', 'cmp_laws', 'cmp_laws_ext'):
+    if k in ('cmp_row', 'cmp_laws', 'cmp_laws_ext', 'cmpmut', 'dsortmut'):
         return True
     if k == 'cmp3':
         r = [vrank_type(v) for v in case['vals']]
@@ -524,7 +614,8 @@ def rand_sort_list(rng, tier):
     return [sc(mode) for _ in range(n)]
 
 COLS = ['a', 'b', 'c', 'd']
-NAMEPOOL = ['a', 'b', 'c', 'd', 'key', 'name', 'date', 'x y', 'A', 'len', 'keys', 'items', 'values', 'Key', 'col_1', 'z9', 'columns', 'data', 'function', 'other', 'value']     # dict methods, builtins, a space, cases
+KWNAMES = ['reverse', 'key', 'by', 'ascending', 'inplace', 'reverse', 'cmp', 'stable', 'na_position']
+NAMEPOOL = ['a', 'b', 'c', 'd', 'key', 'name', 'date', 'x y', 'A', 'len', 'keys', 'items', 'values', 'Key', 'col_1', 'z9', 'columns', 'data', 'function', 'other', 'value', 'reverse', 'by', 'ascending', 'inplace']     # dict methods, builtins, a space, cases
 def rand_column(rng, n, mode=None):
     mode = mode or rng.choice(['ints', 'ints', 'nums', 'numsnan', 'strs', 'mixed', 'mixed', 'dates', 'none', 'bin', 'bin', 'huge'])
     out = []
@@ -582,6 +673,11 @@ def rand_dsort(rng, tier):
             k = rng.choice([0, 1, 2, 2, 3, 4])
             vals = [rng.choice(pool) for _ in range(k)] if rng.random() < 0.25 else dedupe([rng.choice(pool) for _ in range(k)])
             bv.append([c, vals])
+        if rng.random() < 0.3:                  # value orders for columns called like plausible keyword arguments of a sort (never `self`)
+            kwn = rng.choice(KWNAMES)
+            if kwn not in names:
+                old = bv[0][0]; bv[0][0] = kwn
+                cols = [[kwn if x == old else x, cells] for x, cells in cols]
         spec = {'byval': bv}
     return {'kind': 'dsort', 'cols': cols, 'spec': spec}
 
@@ -598,6 +694,58 @@ def rand_big_dsort(rng, lane):
         cols.insert(1, ['b', [['i', rng.randrange(0, 3)] for _ in range(n)]]); by = rng.choice([[['col', 'a'], ['col', 'b']], [['col', 'b'], ['col', 'a']], [['fn', 'neg', 'b'], ['col', 'a']]])
     spec = {'by': by} if variant != 'byval' else {'byval': [['a', [['i', 3], ['i', 1]]]]}
     return {'kind': 'dsort', 'cols': cols, 'spec': spec, 'lane': lane}
+
+def rand_container(rng, depth=2):
+    r = rng.random()
+    n = rng.choice([1, 2, 2, 3])
+    leaf = lambda: rand_container(rng, depth - 1) if depth > 1 and rng.random() < 0.3 else rand_scalar(rng)
+    if r < 0.6: return ['m', [[k, leaf()] for k in rng.sample(DKEYS, n)]]
+    return ['l', [leaf() for _ in range(n)]]
+
+def rand_mutation(rng, v):
+    """(path, op) for the container v: at the top or inside a nested container (also one that sits inside a tuple-free list / dict)"""
+    path = []
+    while True:
+        kind, a = v
+        inner = [i for i, e in enumerate(a) if (e[1] if kind == 'm' else e) is not None and (e[1] if kind == 'm' else e)[0] in ('m', 'l')]
+        if inner and rng.random() < 0.4:
+            i = rng.choice(inner); path.append(i); v = a[i][1] if kind == 'm' else a[i]
+            continue
+        break
+    x = rand_scalar(rng) if rng.random() < 0.8 else rand_container(rng, 1)
+    if kind == 'm':
+        keys = [e[0] for e in a]
+        k = rng.choice(keys) if keys and rng.random() < 0.5 else rng.choice([q for q in DKEYS if q not in keys])
+        return path, ['set', k, x]
+    if a and rng.random() < 0.5: return path, ['setitem', rng.randrange(len(a)), x]
+    return path, ['append', x]
+
+def ascii_only(v):
+    """the sorted values are observed, and observations are ASCII: replace non-ASCII strings"""
+    if v is None or isinstance(v, (str, int, bool)): return v
+    if v[0] == 's': return v if all(ord(ch) < 127 for ch in v[1]) else ['s', 'zz']
+    if v[0] in ('t', 'l'): return [v[0], [ascii_only(e) for e in v[1]]]
+    if v[0] == 'm': return ['m', [[ascii_only(k), ascii_only(e)] for k, e in v[1]]]
+    return v
+
+def rand_cmpmut(rng):
+    x = ascii_only(rand_container(rng))
+    path, op = rand_mutation(rng, x); op = [ascii_only(e) if isinstance(e, list) else e for e in op]
+    r = rng.random()
+    y = x if r < 0.4 else mutate_json(x, path, op) if r < 0.8 else rand_container(rng)      # equal before / equal after / unrelated
+    z = ascii_only(rng.choice([perturb(rng, x), rand_val(rng, 2)])); y = ascii_only(y)
+    vals = [x, y, z]; order = [0, 1, 2]; rng.shuffle(order)
+    return {'kind': 'cmpmut', 'vals': [vals[i] for i in order], 'target': order.index(0), 'path': path, 'op': op}
+
+def rand_dsortmut(rng):
+    n = rng.choice([2, 3, 4, 5, 6])
+    mk = 'm'        # dict cells: not natively comparable, so dictable.sort orders them by cmp (list cells would take python's native list order)
+    cell = lambda: ['m', [['a', ['i', rng.randrange(0, 4)]]] + ([['b', ['i', rng.randrange(0, 2)]]] if rng.random() < 0.3 else [])] if mk == 'm' else ['l', [['i', rng.randrange(0, 4)]]]
+    cols = [['k', [cell() for _ in range(n)]], ['v', [['i', i] for i in range(n)]]]
+    row = rng.randrange(n)
+    if mk == 'm': op = rng.choice([['set', 'a', ['i', rng.randrange(-1, 5)]], ['set', 'b', ['i', 0]], ['set', rng.choice(['c', ['i', 2]]), ['i', 1]]])
+    else: op = rng.choice([['setitem', 0, ['i', rng.randrange(-1, 5)]], ['append', ['i', 0]]])
+    return {'kind': 'dsortmut', 'cols': cols, 'spec': {'by': [['col', 'k']] + ([['col', 'v']] if rng.random() < 0.3 else [])}, 'col': 'k', 'row': row, 'path': [], 'op': op}
 
 def dedupe(vals):
     out = []
@@ -629,6 +777,10 @@ def gen_cases(rng, tier):
         cases.append(rand_dsort(rng, tier))
     for i in range(12 if q else 60):
         cases.append(rand_big_dsort(rng, i))
+    for _ in range(300 if q else 3000):                   # in-place updates of containers between two calls
+        cases.append(rand_cmpmut(rng))
+    for _ in range(150 if q else 1500):
+        cases.append(rand_dsortmut(rng))
     return cases
 
 def shrink(case):
